@@ -1173,6 +1173,52 @@ mod oracle {
                 }
             }
         }
+        /// standard normal with a slab of zero density cut out (0.3 < x0 < 0.5); the gradient is finite everywhere (0 inside the slab)
+        #[derive(Clone)]
+        struct Slab;
+        impl<Bk: burn::tensor::backend::AutodiffBackend> BatchedGradientTarget<f64, Bk> for Slab {
+            fn unnorm_logp_batch(&self, positions: Tensor<Bk, 2>) -> Tensor<Bk, 1> {
+                let n = positions.dims()[0];
+                let x0 = positions.clone().slice([0..n, 0..1]);
+                let base = (positions.clone() * positions).sum_dim(1).mul_scalar(-0.5);
+                let in_slab = x0.clone().greater_elem(0.3).bool_and(x0.lower_elem(0.5));
+                base.mask_fill(in_slab, f64::NEG_INFINITY).flatten(0, 1)
+            }
+        }
+        fn slab_lp_grad(x: &[f64]) -> (f64, Vec<f64>) {
+            // inside the slab the value is the constant -inf, whose gradient is 0
+            if x[0] > 0.3 && x[0] < 0.5 { (f64::NEG_INFINITY, vec![0.0, 0.0]) } else { (-0.5 * (x[0] * x[0] + x[1] * x[1]), vec![-x[0], -x[1]]) }
+        }
+        /// C02: a trajectory that passes through a region of zero density (finite gradient) is still L leapfrog steps long,
+        /// for a single chain and next to any neighbour
+        #[test]
+        fn oracle_c02_trajectories_through_zero_density_regions() {
+            let mut crossings = 0usize;
+            for n_chains in [1usize, 2] {
+                for seed in 0..12u64 {
+                    let init: Vec<Vec<f64>> = (0..n_chains).map(|c| vec![0.1 + 0.5 * c as f64, 0.2]).collect();
+                    let (eps, l) = (0.12f64, 6usize);
+                    let mut s = HMC::<f64, B, _>::new(Slab, init.clone(), eps, l).set_seed(seed);
+                    let mut x = init.clone();
+                    for step in 0..25 {
+                        let mut probe = s.rng.clone();
+                        let p0: Vec<Vec<f64>> = (0..n_chains).map(|_| (0..2).map(|_| probe.sample::<f64, _>(StandardNormal)).collect()).collect();
+                        let us: Vec<f64> = (0..n_chains).map(|_| probe.random::<f64>()).collect();
+                        s.step();
+                        let got = s.positions.to_data().to_vec::<f64>().unwrap();
+                        for c in 0..n_chains {
+                            let (want, near) = ref_hmc_row(&slab_lp_grad, &x[c], &p0[c], us[c], eps, l);
+                            if (x[c][0] < 0.3) != (want[0] < 0.3) { crossings += 1; }
+                            if !near && !(close(got[2 * c], want[0]) && close(got[2 * c + 1], want[1])) {
+                                witness(format!("{{\"oracle\":\"c02\",\"target\":\"normal with a zero-density slab\",\"chains\":{n_chains},\"seed\":{seed},\"update\":{step},\"chain\":{c},\"x\":{:?},\"p\":{:?},\"u\":{},\"got\":[{},{}],\"want\":{want:?},\"what\":\"row is neither the unchanged position nor the point reached by exactly L leapfrog steps (the trajectory crosses a region of zero density)\"}}", x[c], p0[c], us[c], got[2 * c], got[2 * c + 1]));
+                            }
+                            x[c] = vec![got[2 * c], got[2 * c + 1]];
+                        }
+                    }
+                }
+            }
+            assert!(crossings >= 5, "the oracle must exercise accepted moves across the slab (got {crossings})");
+        }
         /// standard normal in any dimension, written without ops whose autodiff goes through f32
         #[derive(Clone)]
         struct StdNormalND;
@@ -2831,7 +2877,12 @@ fn c07_nuts_seed_u64_max() {
     use mini_mcmc::nuts::NUTS;
     type B = Autodiff<NdArray>;
     let target = DiffableGaussian2D::new([0.0f32, 1.0], [[4.0, 2.0], [2.0, 3.0]]);
-    let _s = NUTS::<f32, B, _>::new(target, vec![vec![0.0f32, 0.0]; 3], 0.8).set_seed(u64::MAX);
+    let _s = NUTS::<f32, B, _>::new(target.clone(), vec![vec![0.0f32, 0.0]; 3], 0.8).set_seed(u64::MAX);
+    // every 64-bit seed seeds every chain: also those whose per-chain seed wraps around to a small number
+    for seed in [u64::MAX, u64::MAX - 1, u64::MAX - 2, 0] {
+        let run = || NUTS::<f32, B, _>::new(target.clone(), vec![vec![0.0f32, 0.0], vec![1.0, 1.0], vec![-1.0, 2.0]], 0.8).set_seed(seed).run(4, 2).to_data().to_vec::<f32>().unwrap();
+        assert_eq!(run(), run(), "seed {seed}: two identically seeded NUTS samplers returned different draws");
+    }
 }
 
 /// C10 — progress mode succeeds for f32 and f64 backends and scalar types alike.
